@@ -80,6 +80,8 @@ var scopeActions = []scopeAction{
 	{"assign", `x = "assigned"`, true},
 	{"var-then-assign", "var x = \"inner\"\nx = \"inner2\"", false},
 	{"multi-var", `var x, z = "inner", 1`, false},
+	{"multi-var-from-list", `var x, z = ["inner", 1]`, false},
+	{"multi-var-from-call", "var x, z = func() { return \"inner\", 1 }()", false},
 	{"read-only", `probe(x)`, false},
 	{"incr-other", `z = 1`, false},
 }
@@ -173,7 +175,7 @@ func streamScope(o *Out, r *rand.Rand, n int, thorough bool) {
 						o.Fail(Failure{Oracle: "scope-restored", Key: "scope-not-restored:" + key, Input: src, Detail: fmt.Sprintf("top-level bindings after the construct: y=%q y2=%q (expected after/after2 in the global scope)", vars["y"], vars["y2"])})
 					}
 					// bindings made inside are not visible after: z only when assigned (z exists outside)
-					if a.name == "multi-var" && vars["z"] != vals.Encode(int64(0)) {
+					if strings.HasPrefix(a.name, "multi-var") && vars["z"] != vals.Encode(int64(0)) {
 						o.Fail(Failure{Oracle: "scope-binding-visibility", Key: "scope-z:" + key, Input: src, Detail: "var z inside the block changed the outer z: " + vars["z"]})
 					}
 					if _, leaked := vars["e"]; leaked {
@@ -205,6 +207,11 @@ func streamScope(o *Out, r *rand.Rand, n int, thorough bool) {
 		{"func app(f, x) { return f(x) }\nprobe([app(id, 1), app(func(v) { return v + 100 }, 1), app(id, 2)])", vals.Encode([]interface{}{int64(1), int64(101), int64(2)})},
 		{"say = id\nr = []\nfor i = 0; i < 3; i++ {\nr += say(i)\nsay = func(v) { return v * 10 }\n}\nprobe(r)", vals.Encode([]interface{}{int64(0), int64(10), int64(20)})},
 		{"func each(xs, f) {\nfor x in xs {\nf(x)\n}\n}\ntotal = 0\neach([1, 2], probe)\neach([10, 20], func(x) { total += x })\nprobe(total)", vals.Encode(int64(30))},
+		// a named function is bound once, in the scope of its declaration: assigning to the name inside the body reaches that binding
+		{"loads = 0\nfunc config() {\nloads++\nconfig = func() { return \"cached\" }\nreturn \"loaded\"\n}\nr = [config(), config(), config()]\nprobe([r, loads])",
+			vals.Encode([]interface{}{[]interface{}{"loaded", "cached", "cached"}, int64(1)})},
+		{"func walk(n) {\nif n == 0 {\nreturn \"old\"\n}\nreturn walk(n - 1)\n}\nold = walk\nfunc walk(n) { return \"new\" }\nprobe(old(3))", vals.Encode("new")},
+		{"func f() {\nf = 5\nreturn 1\n}\nf()\nprobe(f)", vals.Encode(int64(5))},
 		{"g = probe\nfunc call2() { return g(5) }\ncall2()\ng = func(v) { return v + 1 }\nprobe(call2())", vals.Encode(int64(6))},
 	}
 	for _, c := range closureCases {
